@@ -382,6 +382,10 @@ def run(ctx):
     # premise: instantiation (Quantified.unquantify / substitute) replaces exactly the occurrences of the bound variable (C15)
     from checks import c15 as _c15
     ctx.restate(_c15.run, 'C15.', 'C02.subst.', keep=lambda n: 'substitute' in n or 'unquantify' in n or 'rshift' in n)
+    # premise: branch.has / find (the rule bodies' 'is it there already?' and the closure lookups) find every meeting node
+    from checks import index_ob
+    index_ob.index_obligations(ctx, 'C02.index')
+    index_ob.register_replayers(ctx, 'C02.index')
     selection.rule_target_obligations(ctx, 'C02')
     selection.next_obligations(ctx, 'C02')
     from checks import helpers_ob
